@@ -1,4 +1,4 @@
 SPECIFICATION Spec
-INVARIANTS Theorems SemiNaiveCorrect DesugarCorrect Emit EmitPlan
+INVARIANTS Theorems SemiNaiveCorrect DesugarCorrect CodePlanCorrect EmitCover Emit EmitPlan
 PROPERTY MonotoneStep
 CHECK_DEADLOCK FALSE
